@@ -357,10 +357,10 @@ impl Property for C15 {
         check(s)
     }
     fn valid(s: &Scenario) -> bool {
-        let big = |x: i64| x.abs() <= 1i64 << 60;
+        let big = |x: i64| x.unsigned_abs() <= 1u64 << 60;
         big(s.ctor_arg) && big(s.clock0) && s.ops.len() <= 40 && s.ops.iter().all(|o| match o {
             Op::Set(v, _) | Op::CSet(v) | Op::SetDelta(v) | Op::SetTime(v) => big(*v),
-            Op::ClockAdvance(d) => d.abs() <= 1i64 << 50,
+            Op::ClockAdvance(d) => d.unsigned_abs() <= 1u64 << 50,
             Op::GetterOut(_, GOut::Present(v, t)) => big(*v) && big(*t),
             Op::GetterOut(_, GOut::Err(e)) => (1..=2).contains(e),
             _ => true,
